@@ -5,13 +5,16 @@
    One [step] per schedule label:
      LCommit b    txn.Commit: the store changes, the batch of events computed from the change set is
                   sent to publishCh (EventPublisher.Publish) AFTER the commit — it is only queued
-     LPublish     one iteration of EventPublisher.Run: publishEvent on the oldest queued batch
+     LPublish     one iteration of EventPublisher.Run: publishBatch on the oldest queued batch (dropped
+                  when the state store was replaced since it was queued)
      LSubscribe   Materializer.Run: Unsubscribe the previous subscription, initialHandler(index),
                   EventPublisher.Subscribe with the materializer's index (resume / cached snapshot /
                   fresh snapshot spliced onto the topic buffer)
-     LNext        Subscription.Next (non blocking) + the materializer's handler on the delivered event
+     LNext        Subscription.Next (non blocking; batches not newer than the subscription's snapshot are
+                  skipped) + the materializer's handler on the delivered event
      LUnsub       Subscription.Unsubscribe (freeBuf)
-     LRestore     fsm.Restore: new store, RefreshAllTopics
+     LRestore     fsm.Restore: new store, RefreshAllTopics (caches and topic buffers dropped, every
+                  subscription force-closed, publisher generation incremented)
      LEvict       the snapshot-cache TTL timer
 
    Fields marked "ghost" do not influence any other field or any output; they exist so that the
@@ -91,10 +94,9 @@ Definition evs_for (T : ts) (evs : list ev) : list ev :=
   filter (fun e => matches T (e_key e)) evs.
 
 (* one raft apply: index, the events computed from the change set (ServiceHealthEventsFromChanges,
-   ConfigEntryEventsFromChanges), the secret IDs of the closeSubscription event
-   (aclChangeUnsubscribeEvent), and [b_silent]: the part of the change of the query results that no
-   event of the batch announces (empty when the event computation is right) *)
-Record batch := Batch { b_idx : N; b_evs : list ev; b_close : list N; b_silent : list ev }.
+   ConfigEntryEventsFromChanges) and the secret IDs of the closeSubscription event
+   (aclChangeUnsubscribeEvent) *)
+Record batch := Batch { b_idx : N; b_evs : list ev; b_close : list N }.
 
 Inductive item :=
 | IEv (idx : N) (evs : list ev)
@@ -107,7 +109,7 @@ Record tbuf := TBuf {
   tb_ts : ts;
   tb_refs : nat;
   tb_items : list item;          (* what was appended since the buffer was created *)
-  tb_old : bool                  (* ghost: the buffer existed when a Restore happened *)
+  tb_id : N                      (* identity of the *topicBuffer object (freeBuf compares pointers) *)
 }.
 
 (* a cached eventSnapshot: its own items, then the topic buffer from offset sn_off *)
@@ -115,8 +117,9 @@ Record snap := Snap { sn_ts : ts; sn_items : list item; sn_off : nat }.
 
 Inductive status := Open | ForceClosed | AclClosed.
 
-(* a Subscription: currentItem = first the private items, then the topic buffer from s_off *)
-Record sub := Sub { s_status : status; s_pre : list item; s_off : nat }.
+(* a Subscription: currentItem = first the private items, then the topic buffer s_buf from s_off;
+   s_snap = Subscription.snapshotIndex *)
+Record sub := Sub { s_status : status; s_pre : list item; s_off : nat; s_buf : N; s_snap : N }.
 
 (* submatview/handler.go *)
 Inductive handler := HSnap (acc : list ev) | HStream | HResume.
@@ -134,19 +137,20 @@ Record client := Client {
 
 Record state := State {
   st_store : amap;
-  st_queue : list batch;         (* publishCh *)
+  st_queue : list (N * batch);   (* publishCh: publishBatch{generation, events} *)
   st_bufs : list tbuf;           (* topicBuffers *)
   st_cache : list snap;          (* snapCache *)
   st_clients : list (N * client);
   st_cache_on : bool;            (* snapCacheTTL <> 0 *)
+  st_epoch : N;                  (* EventPublisher.generation = number of restores *)
+  st_nbuf : N;                   (* number of topicBuffer objects created so far (next identity) *)
   st_hi : N;                     (* ghost: largest raft index used so far *)
   st_log : list batch;           (* ghost: commits into the current store incarnation, oldest first *)
-  st_base : amap;                (* ghost: rows of the current incarnation when it was installed *)
-  st_epoch : N                   (* ghost: number of restores *)
+  st_base : amap                 (* ghost: rows of the current incarnation when it was installed *)
 }.
 
 Definition init (cache_on : bool) : state :=
-  State [] [] [] [] [] cache_on 1 [] [] 0.
+  State [] [] [] [] [] cache_on 0 0 1 [] [].
 
 Inductive label :=
 | LCommit (b : batch)
@@ -212,10 +216,11 @@ Definition buf_items (T : ts) (l : list tbuf) : list item :=
 
 (* ------------------------------------------------------------------ commit / publish *)
 
+(* txn.Commit, then EventPublisher.Publish: the batch is queued with the publisher's generation *)
 Definition do_commit (st : state) (b : batch) : state :=
-  State (apply (b_evs b ++ b_silent b) (st_store st)) (st_queue st ++ [b]) (st_bufs st) (st_cache st)
-        (st_clients st) (st_cache_on st)
-        (b_idx b) (st_log st ++ [b]) (st_base st) (st_epoch st).
+  State (apply (b_evs b) (st_store st)) (st_queue st ++ [(st_epoch st, b)]) (st_bufs st) (st_cache st)
+        (st_clients st) (st_cache_on st) (st_epoch st) (st_nbuf st)
+        (b_idx b) (st_log st ++ [b]) (st_base st).
 
 (* closeSubscriptionsForTokens -> Subscription.closeACLChanged (CAS from open) *)
 Definition close_sub_acl (toks : list N) (c : client) : client :=
@@ -225,7 +230,7 @@ Definition close_sub_acl (toks : list N) (c : client) : client :=
       | Open =>
           if existsb (N.eqb (c_tok c)) toks
           then Client (c_ts c) (c_tok c) (c_rpc c) (c_view c) (c_idx c) (c_h c)
-                      (Some (Sub AclClosed (s_pre s) (s_off s))) (c_epoch c)
+                      (Some (Sub AclClosed (s_pre s) (s_off s) (s_buf s) (s_snap s))) (c_epoch c)
           else c
       | _ => c
       end
@@ -236,35 +241,45 @@ Definition close_sub_acl (toks : list N) (c : client) : client :=
 Definition publish_buf (b : batch) (tb : tbuf) : tbuf :=
   match evs_for (tb_ts tb) (b_evs b) with
   | [] => tb
-  | evs => TBuf (tb_ts tb) (tb_refs tb) (tb_items tb ++ [IEv (b_idx b) evs]) (tb_old tb)
+  | evs => TBuf (tb_ts tb) (tb_refs tb) (tb_items tb ++ [IEv (b_idx b) evs]) (tb_id tb)
   end.
 
+(* publishBatch: a batch queued under an older generation is dropped *)
 Definition do_publish (st : state) : state * out :=
   match st_queue st with
   | [] => (st, OPub false)
-  | b :: q =>
-      (State (st_store st) q (map (publish_buf b) (st_bufs st)) (st_cache st)
-             (map (fun cx => (fst cx, close_sub_acl (b_close b) (snd cx))) (st_clients st))
-             (st_cache_on st) (st_hi st) (st_log st) (st_base st) (st_epoch st),
-       OPub true)
+  | (g, b) :: q =>
+      if N.eqb g (st_epoch st) then
+        (State (st_store st) q (map (publish_buf b) (st_bufs st)) (st_cache st)
+               (map (fun cx => (fst cx, close_sub_acl (b_close b) (snd cx))) (st_clients st))
+               (st_cache_on st) (st_epoch st) (st_nbuf st) (st_hi st) (st_log st) (st_base st),
+         OPub true)
+      else
+        (State (st_store st) q (st_bufs st) (st_cache st) (st_clients st)
+               (st_cache_on st) (st_epoch st) (st_nbuf st) (st_hi st) (st_log st) (st_base st),
+         OPub true)
   end.
 
 (* ------------------------------------------------------------------ subscribe *)
 
-(* freeBuf: refs--, and when it reaches zero the buffer and the cached snapshot are dropped *)
-Definition release (T : ts) (st : state) : state :=
+(* freeBuf of a subscription attached to the buffer object [id]: refs--, and when it reaches zero the
+   buffer and the cached snapshot are dropped — only if the map still holds that object (a buffer
+   dropped by RefreshAllTopics is no longer in the map; its counter no longer matters) *)
+Definition release (T : ts) (id : N) (st : state) : state :=
   match find_buf T (st_bufs st) with
   | None => st
   | Some b =>
-      match tb_refs b with
-      | S (S n) =>
-          State (st_store st) (st_queue st)
-                (put_buf (TBuf T (S n) (tb_items b) (tb_old b)) (st_bufs st)) (st_cache st)
-                (st_clients st) (st_cache_on st) (st_hi st) (st_log st) (st_base st) (st_epoch st)
-      | _ =>
-          State (st_store st) (st_queue st) (del_buf T (st_bufs st)) (del_snap T (st_cache st))
-                (st_clients st) (st_cache_on st) (st_hi st) (st_log st) (st_base st) (st_epoch st)
-      end
+      if N.eqb (tb_id b) id then
+        match tb_refs b with
+        | S (S n) =>
+            State (st_store st) (st_queue st)
+                  (put_buf (TBuf T (S n) (tb_items b) (tb_id b)) (st_bufs st)) (st_cache st)
+                  (st_clients st) (st_cache_on st) (st_epoch st) (st_nbuf st) (st_hi st) (st_log st) (st_base st)
+        | _ =>
+            State (st_store st) (st_queue st) (del_buf T (st_bufs st)) (del_snap T (st_cache st))
+                  (st_clients st) (st_cache_on st) (st_epoch st) (st_nbuf st) (st_hi st) (st_log st) (st_base st)
+        end
+      else st
   end.
 
 Definition rows_of (T : ts) (m : amap) : amap := filter (fun kv => matches T (fst kv)) m.
@@ -319,7 +334,17 @@ Definition initial_handler (idx : N) : handler := if N.eqb idx 0 then HSnap [] e
 
 Definition with_clients (st : state) (cl : list (N * client)) : state :=
   State (st_store st) (st_queue st) (st_bufs st) (st_cache st) cl (st_cache_on st)
-        (st_hi st) (st_log st) (st_base st) (st_epoch st).
+        (st_epoch st) (st_nbuf st) (st_hi st) (st_log st) (st_base st).
+
+(* bufferForSubscription; refs++ (a new topicBuffer object gets the next identity) *)
+Definition attach_buf (st : state) (T : ts) : tbuf :=
+  match find_buf T (st_bufs st) with
+  | Some b => TBuf T (S (tb_refs b)) (tb_items b) (tb_id b)
+  | None => TBuf T 1 [] (st_nbuf st)
+  end.
+
+Definition next_nbuf (st : state) (T : ts) : N :=
+  match find_buf T (st_bufs st) with Some _ => st_nbuf st | None => N.succ (st_nbuf st) end.
 
 (* EventPublisher.Subscribe for client x (whose previous subscription is already gone) *)
 Definition do_subscribe_core (st : state) (c : N) (x : client) (qidx : N) : state * out :=
@@ -329,19 +354,15 @@ Definition do_subscribe_core (st : state) (c : N) (x : client) (qidx : N) : stat
   match sub_path st T idx with
   | PErr => (with_clients st (put_client c x0 (st_clients st)), OSubErr)
   | p =>
-      (* bufferForSubscription; refs++ *)
-      let tb := match find_buf T (st_bufs st) with
-                | Some b => TBuf T (S (tb_refs b)) (tb_items b) (tb_old b)
-                | None => TBuf T 1 [] false
-                end in
+      let tb := attach_buf st T in
       let bufs := put_buf tb (st_bufs st) in
       let items := tb_items tb in
       match p with
       | PResume =>
           let x1 := Client T (c_tok x) (c_rpc x) (c_view x) idx (initial_handler idx)
-                           (Some (Sub Open [] (List.length items))) (c_epoch x) in
+                           (Some (Sub Open [] (List.length items) (tb_id tb) 0)) (c_epoch x) in
           (State (st_store st) (st_queue st) bufs (st_cache st) (put_client c x1 (st_clients st))
-                 (st_cache_on st) (st_hi st) (st_log st) (st_base st) (st_epoch st), OSubOk)
+                 (st_cache_on st) (st_epoch st) (next_nbuf st T) (st_hi st) (st_log st) (st_base st), OSubOk)
       | _ =>
           let '(sn, cache) :=
             match find_snap T (st_cache st) with
@@ -352,9 +373,9 @@ Definition do_subscribe_core (st : state) (c : N) (x : client) (qidx : N) : stat
             end in
           let pre := if N.eqb idx 0 then sn_items sn else INstf :: sn_items sn in
           let x1 := Client T (c_tok x) (c_rpc x) (c_view x) idx (initial_handler idx)
-                           (Some (Sub Open pre (sn_off sn))) (c_epoch x) in
+                           (Some (Sub Open pre (sn_off sn) (tb_id tb) 0)) (c_epoch x) in
           (State (st_store st) (st_queue st) bufs cache (put_client c x1 (st_clients st))
-                 (st_cache_on st) (st_hi st) (st_log st) (st_base st) (st_epoch st), OSubOk)
+                 (st_cache_on st) (st_epoch st) (next_nbuf st T) (st_hi st) (st_log st) (st_base st), OSubOk)
       end
   end.
 
@@ -366,8 +387,8 @@ Definition do_unsub (st : state) (c : N) : state * out :=
   match find_client c (st_clients st) with
   | Some x =>
       match c_sub x with
-      | Some _ =>
-          (release (c_ts x) (with_clients st (put_client c (drop_sub x) (st_clients st))), ONone)
+      | Some sb =>
+          (release (c_ts x) (s_buf sb) (with_clients st (put_client c (drop_sub x) (st_clients st))), ONone)
       | None => (st, ONoSub)
       end
   | None => (st, ONoSub)
@@ -399,6 +420,30 @@ Definition handle (epoch : N) (x : client) (s : sub) (it : item) : client :=
   | HStream, INstf => mk (c_view x) 0%N HStream (c_epoch x)
   end.
 
+(* Subscription.Next: "event.Index > 0 && event.Index <= s.snapshotIndex && !event.IsFramingEvent()" *)
+Definition skipped (snap : N) (it : item) : bool :=
+  match it with
+  | IEv i _ => N.ltb 0 i && N.leb i snap
+  | _ => false
+  end.
+
+(* the first item Next delivers among l (the buffer from offset off on), and the offset after it *)
+Fixpoint first_new (snap : N) (l : list item) (off : nat) : option (item * nat) :=
+  match l with
+  | [] => None
+  | it :: r => if skipped snap it then first_new snap r (S off) else Some (it, S off)
+  end.
+
+Fixpoint drop_skipped (snap : N) (l : list item) : list item :=
+  match l with
+  | it :: r => if skipped snap it then drop_skipped snap r else l
+  | [] => []
+  end.
+
+(* Next records the index of the EndOfSnapshot event it returns *)
+Definition snap_after (snap : N) (it : item) : N :=
+  match it with IEos i => i | _ => snap end.
+
 Definition do_next (st : state) (c : N) : state * out :=
   match find_client c (st_clients st) with
   | None => (st, ONoSub)
@@ -408,14 +453,19 @@ Definition do_next (st : state) (c : N) : state * out :=
       | Some s =>
           match s_status s with
           | Open =>
-              match s_pre s with
+              match drop_skipped (s_snap s) (s_pre s) with
               | it :: pre =>
-                  let x' := handle (st_epoch st) x (Sub Open pre (s_off s)) it in
+                  let x' := handle (st_epoch st) x (Sub Open pre (s_off s) (s_buf s) (snap_after (s_snap s) it)) it in
                   (with_clients st (put_client c x' (st_clients st)), ODeliver it)
               | [] =>
-                  match nth_error (buf_items (c_ts x) (st_bufs st)) (s_off s) with
-                  | Some it =>
-                      let x' := handle (st_epoch st) x (Sub Open [] (S (s_off s))) it in
+                  (* the subscription reads the buffer object it is attached to; a dropped one gets nothing more *)
+                  let items := match find_buf (c_ts x) (st_bufs st) with
+                               | Some b => if N.eqb (tb_id b) (s_buf s) then tb_items b else []
+                               | None => []
+                               end in
+                  match first_new (s_snap s) (skipn (s_off s) items) (s_off s) with
+                  | Some (it, off') =>
+                      let x' := handle (st_epoch st) x (Sub Open [] off' (s_buf s) (snap_after (s_snap s) it)) it in
                       (with_clients st (put_client c x' (st_clients st)), ODeliver it)
                   | None => (st, OBlock)
                   end
@@ -438,24 +488,23 @@ Definition force_close (x : client) : client :=
   | Some s =>
       match s_status s with
       | Open => Client (c_ts x) (c_tok x) (c_rpc x) (c_view x) (c_idx x) (c_h x)
-                       (Some (Sub ForceClosed (s_pre s) (s_off s))) (c_epoch x)
+                       (Some (Sub ForceClosed (s_pre s) (s_off s) (s_buf s) (s_snap s))) (c_epoch x)
       | _ => x
       end
   | None => x
   end.
 
-(* fsm.Restore: the store is replaced; RefreshAllTopics evicts every cached snapshot and force-closes
-   every subscription.  Topic buffers and the publish queue are NOT touched. *)
+(* fsm.Restore: the store is replaced; RefreshAllTopics increments the generation (so that what is
+   still queued will be dropped), evicts every cached snapshot, drops every topic buffer and
+   force-closes every subscription. *)
 Definition do_restore (st : state) (rows : amap) (hi : N) : state :=
-  State rows (st_queue st)
-        (map (fun b => TBuf (tb_ts b) (tb_refs b) (tb_items b) true) (st_bufs st))
-        []
+  State rows (st_queue st) [] []
         (map (fun cx => (fst cx, force_close (snd cx))) (st_clients st))
-        (st_cache_on st) (N.max (st_hi st) hi) [] rows (N.succ (st_epoch st)).
+        (st_cache_on st) (N.succ (st_epoch st)) (st_nbuf st) (N.max (st_hi st) hi) [] rows.
 
 Definition do_evict (st : state) (T : ts) : state :=
   State (st_store st) (st_queue st) (st_bufs st) (del_snap T (st_cache st)) (st_clients st)
-        (st_cache_on st) (st_hi st) (st_log st) (st_base st) (st_epoch st).
+        (st_cache_on st) (st_epoch st) (st_nbuf st) (st_hi st) (st_log st) (st_base st).
 
 Definition step (st : state) (l : label) : state * out :=
   match l with
@@ -490,11 +539,9 @@ Definition sub_ts (st : state) (c : N) (T : ts) : ts :=
 Definition sub_idx (st : state) (c : N) : N :=
   match find_client c (st_clients st) with Some x => c_idx x | None => 0%N end.
 
-(* the state in which Subscribe runs: the previous subscription has been unsubscribed *)
-Definition pre_sub_state (st : state) (c : N) : state := fst (do_unsub st c).
-
 (* Raft indexes grow strictly (and 1 is never user data); the index a query reports is not smaller
-   than the index of any commit that touched the subject and not larger than the last raft index *)
+   than the index of any commit that touched the subject and not larger than the last raft index;
+   a store has one row per key *)
 Definition step_ok (st : state) (l : label) : bool :=
   match l with
   | LCommit b => N.ltb (st_hi st) (b_idx b)
@@ -505,14 +552,7 @@ Definition step_ok (st : state) (l : label) : bool :=
       | _, _ => forallb (fun b => negb (touches T' b) || N.leb (b_idx b) qidx) (st_log st)
                 && N.leb qidx (st_hi st)
       end
-  | LRestore rows _ => nodup_keys rows        (* a store has one row per key *)
-  | _ => true
-  end.
-
-(* the events of every batch describe the whole change of the query results *)
-Definition events_ok (st : state) (l : label) : bool :=
-  match l with
-  | LCommit b => match b_silent b with [] => true | _ => false end
+  | LRestore rows _ => nodup_keys rows
   | _ => true
   end.
 
@@ -522,45 +562,13 @@ Fixpoint valid_from (st : state) (ls : list label) : bool :=
   | l :: r => step_ok st l && valid_from (fst (step st l)) r
   end.
 
-(* "the publisher queue is empty when a snapshot is taken" *)
-Definition gapfree_ok (st : state) (l : label) : bool :=
-  match l with
-  | LSubscribe c T _ _ _ =>
-      let st1 := pre_sub_state st c in
-      match sub_path st1 (sub_ts st c T) (sub_idx st c) with
-      | PBuild => match st_queue st with [] => true | _ => false end
-      | _ => true
-      end
-  | _ => true
-  end.
-
-(* "a restore happens with an empty publish queue, and nobody subscribes on a topic buffer that
-   outlived a restore" *)
-Definition restore_ok (st : state) (l : label) : bool :=
-  match l with
-  | LRestore _ _ => match st_queue st with [] => true | _ => false end
-  | LSubscribe c T _ _ _ =>
-      let st1 := pre_sub_state st c in
-      match find_buf (sub_ts st c T) (st_bufs st1) with
-      | Some b => negb (tb_old b)
-      | None => true
-      end
-  | _ => true
-  end.
-
-Fixpoint all_from (ok : state -> label -> bool) (st : state) (ls : list label) : bool :=
-  match ls with
-  | [] => true
-  | l :: r => ok st l && all_from ok (fst (step st l)) r
-  end.
-
 (* ------------------------------------------------------------------ vocabulary of the theorems *)
 
 (* rows of T after the commits of the current incarnation with index <= i *)
 Definition log_upto (i : N) (log : list batch) : list batch :=
   filter (fun b => N.leb (b_idx b) i) log.
 
-Definition all_evs (log : list batch) : list ev := flat_map (fun b => b_evs b ++ b_silent b) log.
+Definition all_evs (log : list batch) : list ev := flat_map b_evs log.
 
 Definition content_at (st : state) (T : ts) (i : N) (k : key) : option N :=
   if matches T k then aget k (apply (all_evs (log_upto i (st_log st))) (st_base st)) else None.
@@ -573,10 +581,16 @@ Definition content_now (st : state) (T : ts) (k : key) : option N :=
 Definition proj (T : ts) (log : list batch) : list item :=
   flat_map (fun b => match evs_for T (b_evs b) with [] => [] | evs => [IEv (b_idx b) evs] end) log.
 
-(* everything client x will still be handed if nothing else is committed *)
+(* the queued batches that will still be published (those of the current generation) *)
+Definition live_queue (st : state) : list batch :=
+  map snd (filter (fun gb => N.eqb (fst gb) (st_epoch st)) (st_queue st)).
+
+(* everything Next will still hand to client x if nothing else is committed *)
 Definition pending (st : state) (x : client) : list item :=
   match c_sub x with
-  | Some s => s_pre s ++ skipn (s_off s) (buf_items (c_ts x) (st_bufs st)) ++ proj (c_ts x) (st_queue st)
+  | Some s => s_pre s ++
+              filter (fun it => negb (skipped (s_snap s) it))
+                     (skipn (s_off s) (buf_items (c_ts x) (st_bufs st)) ++ proj (c_ts x) (live_queue st))
   | None => []
   end.
 
@@ -593,17 +607,10 @@ Definition streaming (x : client) : bool :=
 
 Definition run (cache_on : bool) (ls : list label) : state := run_from (init cache_on) ls.
 
-(* the environment behaves: Raft indexes grow, query indexes cover the subject's changes ([step_ok]);
-   the events of a commit describe its whole effect on the query results ([events_ok]);
-   a restore finds an empty publish queue and nobody subscribes on a topic buffer that outlived it ([restore_ok]) *)
+(* the environment behaves: Raft indexes grow strictly, a query's index covers every commit that
+   touched its subject, a restored store has one row per key ([step_ok] at every step) *)
 Definition env_ok (cache_on : bool) (ls : list label) : Prop :=
-  valid_from (init cache_on) ls = true /\
-  all_from events_ok (init cache_on) ls = true /\
-  all_from restore_ok (init cache_on) ls = true.
-
-(* no snapshot is taken while a committed batch is waiting to be published *)
-Definition gap_free (cache_on : bool) (ls : list label) : Prop :=
-  all_from gapfree_ok (init cache_on) ls = true.
+  valid_from (init cache_on) ls = true.
 
 Definition client_of (st : state) (c : N) : option client := find_client c (st_clients st).
 
